@@ -197,6 +197,7 @@ static void init_basis (
 	EGLPNUM_TYPENAME_QSdata * p);
 
 static int opt_work ( EGLPNUM_TYPENAME_QSdata * p, int *status, int primal_or_dual),
+  qsbasis_check ( QSbasis * qB),
   qsbasis_to_illbasis ( QSbasis * qB, EGLPNUM_TYPENAME_ILLlp_basis * B),
   illbasis_to_qsbasis ( EGLPNUM_TYPENAME_ILLlp_basis * B, QSbasis * qB),
   grab_basis ( EGLPNUM_TYPENAME_QSdata * p),
@@ -1717,6 +1718,10 @@ EGLPNUM_TYPENAME_QSLIB_INTERFACE int EGLPNUM_TYPENAME_QSload_basis (
 		goto CLEANUP;
 	}
 
+	/* reject a malformed basis before the current one is released */
+	rval = qsbasis_check (B);
+	CHECKRVALG (rval, CLEANUP);
+
 	if (p->basis == 0)
 	{
 		ILL_SAFE_MALLOC (p->basis, 1, EGLPNUM_TYPENAME_ILLlp_basis);
@@ -2026,13 +2031,45 @@ CLEANUP:
 	EG_RETURN (rval);
 }
 
+/* a basis must have exactly one basic variable per row */
+static int qsbasis_check (
+	QSbasis * qB)
+{
+	int rval = 0;
+	int i;
+	int nbas = 0;
+
+	for (i = 0; i < qB->nstruct; i++)
+	{
+		if(qB->cstat[i] == QS_COL_BSTAT_BASIC) nbas++;
+	}
+
+	for (i = 0; i < qB->nrows; i++)
+	{
+		if(qB->rstat[i] == QS_ROW_BSTAT_BASIC) nbas++;
+	}
+
+	if(nbas != qB->nrows)
+	{
+		QSlog("Received basis is not valid, in qsbasis_to_illbasis");
+		rval = 1;
+		ILL_CLEANUP;
+	}
+
+CLEANUP:
+
+	EG_RETURN (rval);
+}
+
 static int qsbasis_to_illbasis (
 	QSbasis * qB,
 	EGLPNUM_TYPENAME_ILLlp_basis * B)
 {
 	int rval = 0;
 	int i;
-	int nbas = 0;
+
+	rval = qsbasis_check (qB);
+	CHECKRVALG (rval, CLEANUP);
 
 	B->nstruct = qB->nstruct;
 	B->nrows = qB->nrows;
@@ -2041,21 +2078,12 @@ static int qsbasis_to_illbasis (
 
 	for (i = 0; i < qB->nstruct; i++)
 	{
-		if(qB->cstat[i] == QS_COL_BSTAT_BASIC) nbas++;
 		B->cstat[i] = qB->cstat[i];
 	}
 
 	for (i = 0; i < qB->nrows; i++)
 	{
-		if(qB->rstat[i] == QS_ROW_BSTAT_BASIC) nbas++;
 		B->rstat[i] = qB->rstat[i];
-	}
-
-	if(nbas != qB->nrows)
-	{
-		QSlog("Received basis is not valid, in qsbasis_to_illbasis");
-		rval = 1;
-		ILL_CLEANUP;
 	}
 
 CLEANUP:
